@@ -155,3 +155,27 @@ def writer_correspondence(ctx, mode, obs, limit=80):
         ctx.correspondence("regenerated %s (GenWriter.v, kernel evaluation) = bytes the real function wrote" % c["fn"],
                            {"fn": c["fn"], "n": len(c["vals"]), "version": c.get("version"), "no_nulls": c.get("no_nulls"), "dtype": c.get("dtype")},
                            got, r[1])
+
+
+# ---------------------------------------------------------------------------------------------
+# module-level state touched by the codec functions (translators/state2coq.py: an inventory, no fallback needed)
+# ---------------------------------------------------------------------------------------------
+
+def translate_state(ctx):
+    enc = os.path.join(C.REPO, "fastparquet", "encoding.py")
+    wr = os.path.join(C.REPO, "fastparquet", "writer.py")
+    p = subprocess.run([C.PY, os.path.join(C.VERIF, "translators", "state2coq.py"), enc, wr], stdout=subprocess.PIPE, stderr=subprocess.PIPE)
+    ctx.obligation("state2coq: inventory of module-level state of the codec functions produced", p.returncode == 0, p.stderr.decode()[-300:])
+    if p.returncode != 0:
+        return
+    gen = os.path.join(ctx.gen_dir, "GenState.v")
+    txt = p.stdout.decode()
+    if not os.path.exists(gen) or open(gen).read() != txt:
+        open(gen, "w").write(txt)
+    ok, out = C.coqc(gen, extra_q=[(ctx.gen_dir, "PqGen")])
+    ctx.obligation("GenState.v (regenerated from encoding.py / writer.py) compiles", ok, out)
+    if ok:
+        gp = os.path.join(ctx.gen_dir, "GenStateProofs.v")
+        shutil.copy(os.path.join(C.COQ, "genproofs", "GenStateProofs.v"), gp)
+        ctx.coq_file(gp, extra_q=[(ctx.gen_dir, "PqGen")])
+    ctx.extra["translator_state2coq"] = "translated"
